@@ -27,7 +27,7 @@ def run(tier, seed):
         cp = os.path.join(d, "cases.ndjson")
         common.write_ndjson(cp, cases)
         rp = os.path.join(d, f"report_{k}.json")
-        rc, so, se = common.run_bin("noise_replay", [cp, rp, seed * 10 + k], timeout=3000)
+        rc, so, se = common.run_bin("noise_replay", [cp, rp, seed * 10 + k], timeout=(600 if tier == "quick" else 3000))
         if rc != 0:
             raise common.ToolError("noise_replay failed: " + se[-800:])
         rep = common.load_report(rp)
